@@ -108,6 +108,11 @@ def block(draw, name, nrexcl, syntax, names=None, max_atoms=5, resname=None, non
         atoms.append({"name": names[idx], "type": draw(st.sampled_from(TYPES)),
                       "charge": draw(st.sampled_from(CHARGES)), "mass": draw(st.sampled_from(MASSES)),
                       "cgrp": draw(st.integers(1, natoms)), "resid": own_resid, "resname": resname or name})
+    if syntax == "itp" and natoms >= 2 and draw(st.integers(0, 5)) == 0:
+        # a monomer .itp may use an atom name twice (two equal beads): only the atom number tells them apart
+        i, j = draw(st.permutations(range(natoms)))[:2]
+        for field in ("name", "type", "charge", "mass"):
+            atoms[j][field] = atoms[i][field]
     inter = []
     adj = {i: [] for i in range(natoms)}
     # spanning tree of bonds / constraints so that the residue is connected
@@ -529,6 +534,19 @@ def case(draw, with_links=True, max_res=8, mixed_nrexcl=False, routes=("json", "
                                   "inter": [{"sec": "bonds", "atoms": [x, "+" + y], "params": ["1", _param(draw), _param(draw)],
                                              "meta": {}}],
                                   "edges": [], "non_edges": [], "patterns": []})
+        labelled = [l for l in links if any(e[2].get("linktype") for e in l["edges"]) and not l["non_edges"] and not l["patterns"]]
+        if labelled and draw(st.booleans()):
+            # a labelled link and its plain counterpart: the same residues, orders and atoms, other parameters, no
+            # label on the edges - the one applies along labelled edges of the residue graph, the other along plain ones
+            import copy
+            src = draw(st.sampled_from(labelled))
+            plain = copy.deepcopy(src)
+            plain["edges"] = [e for e in plain["edges"] if not e[2].get("linktype")]
+            plain["log"] = None
+            for it in plain["inter"]:
+                if it["sec"] in ("bonds", "angles") and len(it["params"]) == 3:
+                    it["params"] = [it["params"][0], _param(draw), _param(draw)]
+            links.insert(draw(st.integers(0, len(links))), plain)
         if links and draw(st.integers(0, 4)) == 0:
             # one link is meant for molecules with a certain attribute only (as the martini protein links that ask
             # for scfix / extdih): gen_params molecules carry none, so it applies nowhere
@@ -592,6 +610,21 @@ def case(draw, with_links=True, max_res=8, mixed_nrexcl=False, routes=("json", "
         for i in itp_blocks:
             files.append({"kind": "itp", "blocks": [i], "links": [], "mods": []})
     files = list(draw(st.permutations(files)))
+    if route == "json" and graph["edges"]:
+        for lnk in links:
+            types = sorted({e[2]["linktype"] for e in lnk["edges"] if e[2].get("linktype")})
+            if types and draw(st.booleans()):
+                # a typed link is there to be used: one edge of the residue graph carries its type
+                draw(st.sampled_from(graph["edges"]))[2]["linktype"] = types[0]
+    if not any(f["kind"] == "itp" for f in files):
+        for lnk in links:
+            named = [frozenset((e[0], e[1])) for e in lnk["edges"] if e[2].get("linktype")]
+            if named and draw(st.booleans()):
+                # the way typed links are written in the libraries: the bond itself is flagged as making no edge
+                # ("edge": false) and the connection, with its type, is declared under [ edges ]
+                for it in lnk["inter"]:
+                    if it["sec"] == "bonds" and len(it["atoms"]) == 2 and frozenset(it["atoms"]) in named:
+                        it["meta"] = dict(it["meta"], edge=False)
     explicit = []
     one_link = False
     if explicit_links and route == "json" and (explicit_links == "adjacent" or draw(st.integers(0, 1)) == 0):
@@ -828,7 +861,14 @@ def write_inputs(spec, directory):
         kwargs["seq"] = [f"{n}:{c}" for n, c in seq]
     elif route == "txt":
         path = directory / "seq.txt"
-        path.write_text(" ".join(node["resname"] for node in graph["nodes"]) + "\n")
+        names = [node["resname"] for node in graph["nodes"]]
+        # the names stand on one line or, half of the time, on lines of one to three names each
+        per_line = spec.get("rng", 0) % 6
+        if per_line in (1, 2, 3):
+            text = "\n".join(" ".join(names[i:i + per_line]) for i in range(0, len(names), per_line)) + "\n"
+        else:
+            text = " ".join(names) + "\n"
+        path.write_text(text)
         kwargs["seq_file"] = path
     else:
         path = directory / "seq.json"
